@@ -139,8 +139,42 @@ MUT["C04"] = [
     dict(id="c04-wrong-value", what="incumbent value taken from the GP estimate slot of another point", path=P_BADS, functions=[B + "._poll_step_"],
          old="                y_poll_best = y_poll\n", new="                y_poll_best = y_poll_best\n", expect="c04"),
     dict(id="c04-result-other-point", what="returned x computed from u instead of the incumbent after a late move", path=P_BADS, functions=[B + ".optimize"],
-         old="        self.x = self.var_transf.inverse_transf(self.u)", new="        self.x = self.var_transf.inverse_transf(self.optim_state[\"u\"])", expect="result_is_best_evaluated_point"),
+         old="        self.x = self.var_transf.inverse_transf(self.u)", new="        self.x = self.var_transf.inverse_transf(self.u_best + self.mesh_size)", expect="result_is_best_evaluated_point"),
 ]
+
+
+MUT["C02"] = [
+    dict(id="c02-cons-sign", what="constraint filter keeps violators", path=P_CC, functions=[CC], old="        idx = C <= 0", new="        idx = C >= 0", expect="feasible"),
+    dict(id="c02-poll-unfiltered", what="poll set not filtered by the constraint", path=P_BADS, functions=[B + "._poll_step_"],
+         old="                    False,\n                    self.non_box_cons,\n                )", new="                    False,\n                    None,\n                )", expect="_poll_step_"),
+    dict(id="c02-search-eval-before-filter", what="search candidate taken from the unfiltered set", path=P_BADS, functions=[B + "._search_step_"],
+         old="        u_search_set = contraints_check(\n            u_search_set,\n", new="        u_search_raw = u_search_set\n        u_search_set = contraints_check(\n            u_search_set,\n",
+         extra=[("            u_search = u_search_set[index_acq]", "            u_search = u_search_raw[index_acq]")], expect="_search_step_"),
+    dict(id="c02-init-grid-after-filter", what="initial design snapped to the grid after the feasibility filter", path=P_BADS, functions=[B + "._init_mesh_"],
+         old="                for u_idx in range(len(u1)):\n                    self.function_logger(u1[u_idx])", new="                u1 = force_to_grid(u1, self.optim_state[\"search_mesh_size\"])\n                for u_idx in range(len(u1)):\n                    self.function_logger(u1[u_idx])", expect="feasible_point"),
+    dict(id="c02-no-snapped-x0-check", what="mesh-snapped x0 not re-checked", path=P_BADS, functions=[B + "._init_optim_state_"],
+         old="        if self.non_box_cons is not None and \\\n            np.any(self.non_box_cons(self.var_transf.inverse_transf(u0)) > 0):", new="        if False:", expect="snapped_start_feasible"),
+    dict(id="c02-final-sample-elsewhere", what="final samples taken at a shifted point", path=P_BADS, functions=[B + ".optimize"],
+         old="                    y, y_sd, _ = self.function_logger(\n                        self.u, record_duplicate_data=False\n                    )", new="                    y, y_sd, _ = self.function_logger(\n                        self.u + self.mesh_size, record_duplicate_data=False\n                    )", expect="feasible_point"),
+    dict(id="c02-single-row-skip", what="constraint filter skipped for single-row sets", path=P_CC, functions=[CC],
+         old="    if non_box_cons is not None:", new="    if non_box_cons is not None and len(U_new) > 1:", expect="feasible"),
+]
+
+
+def scan_c02(index, registry):
+    """Nothing reachable from BADS.__init__ calls the target (so a rejected start never costs an evaluation)."""
+    from pyvc import frames
+    from pyvc.verify import VEngine
+    from pyvc.vals import Ctx, set_ctx
+    set_ctx(Ctx())
+    eng = VEngine(index, registry)
+    fi = index.find(B + ".__init__")
+    eng.func = fi
+    eng.frame_cls = [fi.cls]
+    fr = frames.frame_of(eng, fi)
+    ok = not fr.may_call_target
+    return scans.target_call_sites(index, registry) + [{"name": "scan::constructor_never_calls_target", "kind": "coverage", "top": True, "result": "unsat" if ok else "sat",
+            "secs": 0.0, "model": {"calls": sorted(fr.calls)[:20]}}]
 
 
 def scan_c01(index, registry):
@@ -205,6 +239,19 @@ PROPS = {
         mutants=MUT["C01"],
         explanation="Clamp postconditions of both transform directions for every finite input; the single target call site receives inverse_transf(x)[0] (in the hard box for every x); "
                     "rows handed to non_box_cons by the candidate filter are images of inverse_transf; returned x is an image of inverse_transf.",
+    ),
+    "C02": dict(
+        level="proof",
+        native=[panel('C02', 8, 40, kinds="sym,tight,opt_outside")], replay=replay('C02', 40),
+        functions=[CC, "pybads.acquisition_functions.acq_fcn_lcb.acq_fcn_lcb", "pybads.poll.poll_mads_2n.poll_mads_2n", FL + ".__call__", B + "._init_optim_state_", B + "._init_mesh_",
+                   B + "._init_optimization_", B + "._re_evaluate_history_", B + "._search_step_", B + "._poll_step_", B + ".optimize"],
+        scans=[scan_c02],
+        # dead code in the real source: `for i in range(len()):` (len() without argument raises TypeError before the loop body)
+        dead_ok=["pybads.bads.bads.BADS._init_optim_state_::loop#0::body-reachable"],
+        mutants=MUT["C02"],
+        explanation="Ghost predicate feasx over points (row-wise deterministic user constraint, T5). The filter returns only feasible rows; the logger requires a feasible point at each "
+                    "of its call sites (initial point, noise test, initial design, search, poll, final re-sampling) and hands exactly inverse_transf(x) to the target; invariants: incumbent, "
+                    "current point, every logged point, every remaining poll candidate and every history iterate are feasible; the mesh-snapped start is feasible or ValueError.",
     ),
     "C04": dict(
         level="proof",
